@@ -136,6 +136,10 @@ fn msg_decs(msg: &[(u32, u32, Vec<u128>, usize)]) -> String {
 
 fn oracle_combo<C: RangeCombo>(rng: &mut Rng, w: u32, s: u32, bps: &[(u32, Vec<u32>)], iters: usize, rep: &mut Report) {
     let tag = format!("{}x{}", w, s);
+    // failures of C11 at State > 2·Word are the open known finding D3; a handful of replays per
+    // type combination is enough, the rest is only counted so that they cannot crowd out other
+    // failures in the (capped) report
+    let mut d3_reported = 0usize;
     for _ in 0..iters {
         // ---------------- build a message, inspecting one coder and leaving its twin alone ----
         let prefix: Vec<u128> = if rng.chance(1, 5) { { let k = 1 + (rng.next() % 3) as usize; gen_words(rng, w, k) } } else { vec![] };
@@ -394,7 +398,11 @@ fn oracle_combo<C: RangeCombo>(rng: &mut Rng, w: u32, s: u32, bps: &[(u32, Vec<u
                 data.extend(suffix.iter().copied());
                 let mut d: Dec<C> = RangeDecoder::from_compressed(words::<C::W>(&data)).unwrap();
                 if let Err(t) = decode_expect::<C, _>(&mut d, &msg) {
-                    rep.fail("C11", format!("{} | export => {} ; suffix {} ; decoding sealed++suffix with{} => {}", plain_new, show_list(payload.clone()), show_list(suffix.clone()), msg_decs(&msg), t));
+                    rep.count(&format!("C11.failures.{}", tag));
+                    if s == 2 * w || d3_reported < 4 {
+                        d3_reported += 1;
+                        rep.fail("C11", format!("{} | export => {} ; suffix {} ; decoding sealed++suffix with{} => {}", plain_new, show_list(payload.clone()), show_list(suffix.clone()), msg_decs(&msg), t));
+                    }
                 }
                 rep.sample("C11", || format!("{} | export ; suffix {}", plain, show_list(suffix.clone())));
                 // back-to-back messages: a second sealed message right after the first
@@ -405,7 +413,11 @@ fn oracle_combo<C: RangeCombo>(rng: &mut Rng, w: u32, s: u32, bps: &[(u32, Vec<u
                     data.extend(second.iter().copied());
                     let mut d: Dec<C> = RangeDecoder::from_compressed(words::<C::W>(&data)).unwrap();
                     if let Err(t) = decode_expect::<C, _>(&mut d, &msg) {
-                        rep.fail("C11", format!("{} | export => {} ; suffix {} (a second sealed message) => {}", plain_new, show_list(payload.clone()), show_list(second), t));
+                        rep.count(&format!("C11.failures.{}", tag));
+                        if s == 2 * w || d3_reported < 4 {
+                            d3_reported += 1;
+                            rep.fail("C11", format!("{} | export => {} ; suffix {} (a second sealed message) => {}", plain_new, show_list(payload.clone()), show_list(second), t));
+                        }
                     }
                     let _ = enc2;
                 }
